@@ -1,7 +1,7 @@
 (* Properties_C12.v — C12: OCP cost, adjoint gradient and masked Riccati (Gauss-Newton) step are exact.
    Only theorem statements closed by `exact`, each followed by Print Assumptions, plus non-vacuity examples. *)
 From Coq Require Import Reals List ZArith Lra Arith Lia Sorting.Sorted Sorting.Permutation.
-From Alpaqa Require Import Num NumR Vec Ocp OcpProofs OcpMinProofs.
+From Alpaqa Require Import Num NumR Vec Ocp OcpProofs OcpMinProofs OcpGenLib OcpGen OcpGenEq.
 Import ListNotations.
 
 (* ---- (1) index sets: for EVERY mask, horizon, width and stage: J ascending, K ascending, J = the free components,
